@@ -31,13 +31,60 @@ def rename_map(ref, model):
     return ren
 
 
+
+def find_bijection(odes_a, odes_b, eq, base=None, extra=None, limit=400):
+    """Find a bijection between the amounts of two ODE systems (dicts amount-function -> rhs) under which all
+    right-hand sides are equal for all inputs (z3).  Compartment names / numbers are not semantic, the dynamics are.
+    `base`: substitution applied to side a before comparing (parameter renaming).  Returns (mapping a->b or None,
+    evidence list)."""
+    import itertools
+    A = list(odes_a)
+    B = list(odes_b)
+    if len(A) != len(B):
+        return None, [('ode_compartments', 'violated', dict(reference=[str(x) for x in A], pharmpy=[str(x) for x in B]))]
+    base = base or {}
+
+    def sig(rhs, amounts):
+        return frozenset(str(x) for x in rhs.free_symbols) - {'t'}
+    sig_a = {a: sig(odes_a[a].xreplace(base), A) for a in A}
+    sig_b = {b: sig(odes_b[b], B) for b in B}
+    cands = {a: [b for b in B if sig_b[b] == sig_a[a]] or list(B) for a in A}
+    # same name first
+    for a in A:
+        cands[a].sort(key=lambda b: (str(b) != str(a),))
+    tried = 0
+    first_fail = None
+    for combo in itertools.product(*[cands[a] for a in A]):
+        if len(set(combo)) != len(combo):
+            continue
+        tried += 1
+        if tried > limit:
+            break
+        mp_ = dict(zip(A, combo))
+        ok = True
+        for a in A:
+            lhs = odes_a[a].xreplace(base).xreplace(mp_)
+            v, info = eq.check(lhs, odes_b[mp_[a]], extra=extra)
+            if v != 'equal':
+                ok = False
+                if first_fail is None:
+                    first_fail = (a, mp_[a], v, info, str(lhs)[:400], str(odes_b[mp_[a]])[:400])
+                break
+        if ok:
+            return mp_, [(f'ode[{a}->{mp_[a]}]', 'discharged', None) for a in A]
+    a, b, v, info, l, r = first_fail
+    return None, [(f'ode[{a}]', 'violated' if v == 'differ' else 'inconclusive',
+                   dict(info, reference=l, pharmpy=r, note='no compartment correspondence makes all right-hand sides '
+                                                            'equal; shown: first mismatch under the name-based one'))]
+
+
 def verdict(v):
     return {'equal': 'discharged', 'differ': 'violated'}.get(v, 'inconclusive')
 
 
-def compare_statements(ref, model, eq, res, skip=()):
-    den = semeq.denote(model.statements)
-    ren = rename_map(ref, model)
+def compare_statements(ref, model, eq, res, skip=(), den=None, ren=None):
+    den = den or semeq.denote(model.statements)
+    ren = ren or rename_map(ref, model)
     dvs = [str(s) for s in model.dependent_variables]
     for key, val in ref.final.items():
         if not re.fullmatch(r'[A-Z_][A-Z0-9_]*', key) or key in skip:
@@ -59,37 +106,18 @@ def compare_statements(ref, model, eq, res, skip=()):
     return den, ren
 
 
-def compare_odes(ref, model, den, ren, eq, res):
-    t = sympy.Symbol('t')
+def compare_attachments(ref, model, den, ren, eq, res):
+    """closedness of the flows and lag time / bioavailability / dose attachments under the compartment correspondence."""
     if ref.kind == 'PRED':
         if den.odes:
             res.append(('odes', 'violated', dict(what='$PRED model with ODE system')))
         return
-    want = {sympy.Function(f'A_{name}')(t): ref.odes.get(i) for i, name in enumerate(ref.comp_names, 1)}
-    have = set(den.odes)
-    for amt, rhs in want.items():
-        if rhs is None:
-            # declared in $MODEL but no DADT given: pharmpy may omit it
-            continue
-        if amt not in den.odes:
-            res.append((f'ode[{amt}]', 'violated', dict(what='compartment missing in model')))
-            continue
-        a = rhs.xreplace(ren)
-        b = den.odes[amt]
-        v, info = eq.check(a, b)
-        res.append((f'ode[{amt}]', verdict(v),
-                    dict(info, reference=str(a)[:400], pharmpy=str(b)[:400]) if v != 'equal' else None))
-    extra = have - set(want)
-    if extra:
-        res.append(('ode_compartments', 'violated', dict(extra=[str(x) for x in extra])))
-    # closedness: every symbol in the flows is a parameter, random variable, data column, t, or an amount
     known = set(model.parameters.names) | set(model.random_variables.names) | set(model.datainfo.names) | {'t'}
     for amt, rhs in den.odes.items():
         free = {str(s) for s in rhs.free_symbols} - known
         if free:
             res.append((f'closed[{amt}]', 'violated', dict(undefined_symbols=sorted(free), rhs=str(rhs)[:300])))
-    # lag time / bioavailability attachments
-    for i, name in enumerate(ref.comp_names, 1):
+    for i, name in getattr(ref, 'comp_model_names', {}).items():
         c = den.comp.get(name)
         if c is None:
             continue
@@ -100,6 +128,12 @@ def compare_odes(ref, model, den, ren, eq, res):
                 res.append((f'{fld}[{name}]', verdict(v), dict(info, reference=str(a), pharmpy=str(c[fld]))))
             else:
                 res.append((f'{fld}[{name}]', 'discharged', None))
+    # the default dose compartment of the code carries the doses of the model
+    dd = getattr(ref, 'dose_default', None)
+    if dd and dd in getattr(ref, 'comp_model_names', {}):
+        dosed = [n for n, c in den.comp.items() if c['doses']]
+        if dosed and ref.comp_model_names[dd] not in dosed and 'CMT' not in model.datainfo.names:
+            res.append(('dose_compartment', 'violated', dict(code_default=ref.comp_model_names[dd], model_dosed=dosed)))
 
 
 def _feq(a, b, tol=1e-12):
@@ -151,11 +185,38 @@ def compare_parameters(ref, model, res):
 
 
 def compare(text, model, timeout_ms=15000, skip=()):
-    """returns (results, equiv)  -- raises nmref.Unsupported if the control stream is outside the reference subset."""
+    """returns (results, equiv, ref)  -- raises nmref.Unsupported if the control stream is outside the reference subset."""
     ref = nmref.interpret(text)
     eq = Equiv(timeout_ms=timeout_ms)
     res = []
-    den, ren = compare_statements(ref, model, eq, res, skip=skip)
-    compare_odes(ref, model, den, ren, eq, res)
+    den = semeq.denote(model.statements)
+    ren = rename_map(ref, model)
+    t = sympy.Symbol('t')
+    if ref.kind != 'PRED':
+        # compartments correspond by dynamics, not by name: reference compartment i <-> a model compartment
+        placeholders = {sympy.Symbol(f'A({i})'): sympy.Function(f'A_{name}')(t)
+                        for i, name in enumerate(ref.comp_names, 1)}
+        ref_odes = {}
+        for i, name in enumerate(ref.comp_names, 1):
+            rhs = ref.odes.get(i)
+            if rhs is not None:
+                ref_odes[placeholders[sympy.Symbol(f'A({i})')]] = sympy.sympify(rhs).xreplace(placeholders)
+        base = {k: v for k, v in ren.items() if k not in placeholders}
+        model_odes = dict(den.odes)
+        # compartments declared in $MODEL without DADT may be absent from the model
+        mapping, ev = find_bijection(ref_odes, model_odes, eq, base=base)
+        res += ev
+        if mapping is not None:
+            for i, name in enumerate(ref.comp_names, 1):
+                ph = placeholders[sympy.Symbol(f'A({i})')]
+                if ph in mapping:
+                    ren[sympy.Symbol(f'A({i})')] = mapping[ph]
+            ref.comp_model_names = {i: str(mapping[placeholders[sympy.Symbol(f'A({i})')]].func)[2:]
+                                    for i in range(1, len(ref.comp_names) + 1)
+                                    if placeholders[sympy.Symbol(f'A({i})')] in mapping}
+        else:
+            ref.comp_model_names = {i: n for i, n in enumerate(ref.comp_names, 1)}
+    compare_statements(ref, model, eq, res, skip=skip, den=den, ren=ren)
+    compare_attachments(ref, model, den, ren, eq, res)
     compare_parameters(ref, model, res)
     return res, eq, ref
